@@ -7,6 +7,7 @@ package revocation
 
 //@ import "crypto/x509"
 //@ import "time"
+//@ import crlutil "github.com/notaryproject/notation-core-go/revocation/crl"
 //@ import "github.com/notaryproject/notation-core-go/revocation/result"
 //@ import "github.com/notaryproject/notation-core-go/revocation/purpose"
 //@ import "github.com/notaryproject/notation-core-go/revocation/internal/ocsp"
@@ -82,5 +83,5 @@ package revocation
 //@   ensures [purpose] err == nil <==> (opts.CertChainPurpose == purpose.CodeSigning || opts.CertChainPurpose == purpose.Timestamping)
 //@   ensures [ok] err == nil ==> typeof(result) == type(*revocation) && fresh(unbox(result, type(*revocation))) && unbox(result, type(*revocation)).ocspHTTPClient != nil && unbox(result, type(*revocation)).crlFetcher != nil && unbox(result, type(*revocation)).certChainPurpose == opts.CertChainPurpose
 //@   ensures [given-kept] err == nil ==> (opts.OCSPHTTPClient != nil ==> unbox(result, type(*revocation)).ocspHTTPClient == opts.OCSPHTTPClient) && (opts.CRLFetcher != nil ==> unbox(result, type(*revocation)).crlFetcher == opts.CRLFetcher)
-//@   ensures [default-timeouts] err == nil ==> (opts.OCSPHTTPClient == nil ==> unbox(result, type(*revocation)).ocspHTTPClient.Timeout == 2 * time.Second)
+//@   ensures [default-timeouts] err == nil ==> (opts.OCSPHTTPClient == nil ==> unbox(result, type(*revocation)).ocspHTTPClient.Timeout == 2 * time.Second) && (opts.CRLFetcher == nil ==> typeof(unbox(result, type(*revocation)).crlFetcher) == type(*crlutil.HTTPFetcher) && unbox(unbox(result, type(*revocation)).crlFetcher, type(*crlutil.HTTPFetcher)).httpClient.Timeout == 5 * time.Second)
 //@   ensures [err] err != nil ==> result == nil
